@@ -21,6 +21,14 @@ class Return(Exception):
     pass
 
 
+class Continue(Exception):
+    pass
+
+
+class Break(Exception):
+    pass
+
+
 class State(object):
     def __init__(self):
         self.flags = {}        # boolean locals
@@ -113,7 +121,12 @@ class Interp(object):
             name = kids[6]["c"][0]["name"]
             for item in seq:
                 self.st.data["loopvar"] = (name, item)
-                self.run(kids[7])
+                try:
+                    self.run(kids[7])
+                except Continue:
+                    continue
+                except Break:
+                    break
             self.st.data.pop("loopvar", None)
         elif k in ("ForStmt", "WhileStmt"):
             raise OutOfVocabulary("loop statement " + k)
@@ -127,6 +140,14 @@ class Interp(object):
             raise Return()
         elif k == "NullStmt":
             pass
+        elif k == "ContinueStmt":
+            if "loopvar" not in self.st.data:
+                raise OutOfVocabulary("continue outside an interpreted loop")
+            raise Continue()
+        elif k == "BreakStmt":
+            if "loopvar" not in self.st.data:
+                raise OutOfVocabulary("break outside an interpreted loop")
+            raise Break()
         else:
             self.expr_stmt(st)
 
